@@ -212,7 +212,12 @@ def c15(ctx, t0):
     res = []
     if want(ctx, 'faults'):
         res.append(sc_checks.c15_stage(ctx))
-    floors = {'faults_injected': (counters(res, 'faults_injected'), 100), 'readonly_or_failing_calls': (counters(res, 'readonly_or_failing_calls'), 10)}
+    if want(ctx, 'agent-readonly'):
+        ctx.build_agent()
+        r = ctx.run_child('agent-readonly', [ctx.build_hx(), 'c15agent'], T(ctx, 600, 1200))
+        res.append(sc_checks.c15_agent_postprocess(ctx, r, os.path.join(ctx.work, 'w-agent-readonly')))
+    floors = {'faults_injected': (counters(res, 'faults_injected'), 100), 'readonly_or_failing_calls': (counters(res, 'readonly_or_failing_calls'), 10),
+              'requests_total': (counters(res, 'requests_total'), 80), 'agent_syscalls_inspected': (counters(res, 'agent_syscalls_inspected'), 1000)}
     return finish(ctx, 'fault_enumeration', res, COMMON_ASSUME + [
         'faults are single syscall failures injected by strace at the syscall boundary (the syscall is not executed); multi-fault sequences are not explored',
         'errno set per syscall: ENOSPC/EIO/EACCES/EMFILE as applicable'], floors, t0)
